@@ -1140,7 +1140,7 @@ def padleft_fn(
     else:
         cnt = min(int(cntstr), MAX_PAD_LENGTH)
     if cnt - len(v) > len(pad) and len(pad) > 0:
-        pad = pad * ((cnt - len(v)) // len(pad))
+        pad = pad * ((cnt - len(v)) // len(pad) + 1)
     if len(v) < cnt:
         v = pad[: cnt - len(v)] + v
     return v
@@ -1165,7 +1165,7 @@ def padright_fn(
     else:
         cnt = min(int(cntstr), MAX_PAD_LENGTH)
     if cnt - len(v) > len(pad) and len(pad) > 0:
-        pad = pad * ((cnt - len(v)) // len(pad))
+        pad = pad * ((cnt - len(v)) // len(pad) + 1)
     if len(v) < cnt:
         v = v + pad[: cnt - len(v)]
     return v
